@@ -8,6 +8,15 @@ from gen import Gen, cfgs, CFG_LOW, CFG_TOP, CFG_ANCH, CFG_PRE, enum_words
 from vlib import hx, hxlist, fmt_req
 
 
+import os
+THOROUGH_SCALE = int(os.environ.get("VERIF_THOROUGH_SCALE", "4"))
+
+
+def qn(q, quick, thorough):
+    """request counts: the thorough tier is scaled (default x4) so that a thorough run takes minutes, not seconds"""
+    return quick if q else thorough * THOROUGH_SCALE
+
+
 def _find_like(g, n, mks, ops, cfgl, anch=False, fold=False, empty=True, spans=True,
                earliest=False, maxhay=12, pat_kinds=None):
     reqs = []
@@ -104,12 +113,12 @@ def gen_C01(tier, seed):
                 for op in ("find", "iter"):
                     reqs.append(fmt_req(op, {"mk": mk, "pats": hxlist(pats), "hay": hx(hay), "cfgs": cfgs(cf)}))
     reqs += _enum_small(["lf", "ll"], ["find", "iter"], ["nc.d.1.0.b", "c.0.0.0.b", "dfa.d.1.0.u"],
-                        maxp=2, maxplen=2, maxhay=3 if q else 5, stride=1)
+                        maxp=2, maxplen=2, maxhay=qn(q, 3, 5), stride=1)
     if not q:
         reqs += _enum_small(["lf", "ll"], ["find", "iter"], ["nc.d.1.0.b", "dfa.d.1.0.u"],
                             maxp=3, maxplen=2, maxhay=4, stride=3)
-    reqs += _find_like(g, 250 if q else 2500, ["lf", "ll"], ["find", "iter"], cf)
-    certs = _fixed_certs(["lf", "ll"], CORPUS_LISTS) + _certs(g, 40 if q else 400, ["lf", "ll"])
+    reqs += _find_like(g, qn(q, 250, 2500), ["lf", "ll"], ["find", "iter"], cf)
+    certs = _fixed_certs(["lf", "ll"], CORPUS_LISTS) + _certs(g, qn(q, 40, 400), ["lf", "ll"])
     return {"reqs": reqs, "certs": certs, "first": True, "gen": g, "modes": "0", "l1c": True}
 
 
@@ -123,9 +132,9 @@ def gen_C02(tier, seed):
             for op in ("find", "iter"):
                 reqs.append(fmt_req(op, {"mk": "std", "pats": hxlist(pats), "hay": hx(hay), "cfgs": cfgs(cf)}))
     reqs += _enum_small(["std"], ["find", "iter"], ["nc.d.1.0.b", "c.0.0.0.b", "dfa.d.1.0.u"],
-                        maxp=2, maxplen=2, maxhay=3 if q else 5)
-    reqs += _find_like(g, 250 if q else 2500, ["std"], ["find", "iter"], cf)
-    certs = _fixed_certs(["std"], CORPUS_LISTS) + _certs(g, 40 if q else 400, ["std"])
+                        maxp=2, maxplen=2, maxhay=qn(q, 3, 5))
+    reqs += _find_like(g, qn(q, 250, 2500), ["std"], ["find", "iter"], cf)
+    certs = _fixed_certs(["std"], CORPUS_LISTS) + _certs(g, qn(q, 40, 400), ["std"])
     return {"reqs": reqs, "certs": certs, "first": True, "gen": g, "modes": "0", "l1c": True}
 
 
@@ -140,10 +149,10 @@ def gen_C03(tier, seed):
                                         "n": 4 + (len(pats) + 1) * (len(hay) + 1), "cfgs": cfgs(cf)}))
             reqs.append(fmt_req("ovliter", {"mk": "std", "pats": hxlist(pats), "hay": hx(hay), "cfgs": cfgs(cf)}))
     reqs += _enum_small(["std"], ["ovl", "ovliter"], ["nc.d.1.0.b", "c.0.0.0.b", "dfa.d.1.0.u"],
-                        maxp=2, maxplen=2, maxhay=3 if q else 4)
-    reqs += _find_like(g, 250 if q else 2500, ["std"], ["ovl", "ovliter"], cf, fold=0.25)
+                        maxp=2, maxplen=2, maxhay=qn(q, 3, 4))
+    reqs += _find_like(g, qn(q, 250, 2500), ["std"], ["ovl", "ovliter"], cf, fold=0.25)
     certs = _fixed_certs(["std"], CORPUS_LISTS) + _fixed_certs(["std"], CORPUS_LISTS[:6], fold=True) + \
-        _certs(g, 40 if q else 400, ["std"], fold=0.3)
+        _certs(g, qn(q, 40, 400), ["std"], fold=0.3)
     return {"reqs": reqs, "certs": certs, "first": False, "gen": g, "modes": "0", "l1c": True}
 
 
@@ -151,14 +160,14 @@ def gen_C04(tier, seed):
     g = Gen(seed)
     q = tier == "quick"
     cf = CFG_LOW + CFG_TOP
-    reqs = _find_like(g, 150 if q else 1500, ["std", "lf", "ll"], ["find", "iter"], cf, fold=0.2)
-    reqs += _find_like(g, 60 if q else 600, ["std"], ["ovl", "ovliter"], cf, fold=0.2)
-    reqs += _find_like(g, 60 if q else 600, ["std", "lf", "ll"], ["find", "iter"], CFG_ANCH, anch=True)
+    reqs = _find_like(g, qn(q, 150, 1500), ["std", "lf", "ll"], ["find", "iter"], cf, fold=0.2)
+    reqs += _find_like(g, qn(q, 60, 600), ["std"], ["ovl", "ovliter"], cf, fold=0.2)
+    reqs += _find_like(g, qn(q, 60, 600), ["std", "lf", "ll"], ["find", "iter"], CFG_ANCH, anch=True)
     allc = ["nc.d.1.0.b", "nc.0.1.0.b", "nc.9.1.0.b", "c.d.1.0.b", "c.0.0.0.b", "c.0.1.0.b", "c.1.0.0.b",
             "c.2.1.0.b", "c.3.0.0.b", "c.9.1.0.b", "c.9.0.0.b",
             "dfa.d.1.0.b", "dfa.d.0.0.b", "dfa.d.1.0.u", "dfa.d.0.0.u", "dfa.d.1.0.a", "dfa.d.0.0.a"]
     kinds = ["tiny", "tiny3", "nest", "akb", "suffix_chain", "fanout", "fanout", "casey", "random_bytes"]
-    certs = _certs(g, 60 if q else 600, ["std", "lf", "ll"], fold=0.25, pat_kinds=kinds, cfgl=allc)
+    certs = _certs(g, qn(q, 60, 600), ["std", "lf", "ll"], fold=0.25, pat_kinds=kinds, cfgl=allc)
     # C04 compares configurations with each other (reference: the noncontiguous NFA), never with the model:
     # a behaviour shared by all kinds is not a C04 matter.
     for i, r in enumerate(reqs):
@@ -182,14 +191,14 @@ def gen_C09(tier, seed):
                                                 "anch": 1, "n": 4 + (len(pats) + 1) * (len(hay) + 1),
                                                 "cfgs": cfgs(CFG_ANCH)}))
     reqs += _enum_small(["std", "lf", "ll"], ["find", "iter"], ["nc.d.1.0.b", "c.0.0.0.b", "dfa.d.1.0.a"],
-                        maxp=2, maxplen=2, maxhay=3 if q else 4, anch=True)
+                        maxp=2, maxplen=2, maxhay=qn(q, 3, 4), anch=True)
     reqs += _enum_small(["std"], ["ovl"], ["nc.d.1.0.b", "c.0.0.0.b", "dfa.d.1.0.a"],
                         maxp=2, maxplen=2, maxhay=3, anch=True)
-    reqs += _find_like(g, 200 if q else 2000, ["std", "lf", "ll"], ["find", "iter"], CFG_ANCH, anch=True)
-    reqs += _find_like(g, 100 if q else 1000, ["std"], ["ovl"], CFG_ANCH, anch=True)
+    reqs += _find_like(g, qn(q, 200, 2000), ["std", "lf", "ll"], ["find", "iter"], CFG_ANCH, anch=True)
+    reqs += _find_like(g, qn(q, 100, 1000), ["std"], ["ovl"], CFG_ANCH, anch=True)
     certs = _fixed_certs(["std", "lf", "ll"], CORPUS_LISTS,
                          cfgl=["nc.d.1.0.b", "c.0.0.0.b", "dfa.d.1.0.b", "dfa.d.0.0.a"])
-    certs += _certs(g, 30 if q else 300, ["std", "lf", "ll"],
+    certs += _certs(g, qn(q, 30, 300), ["std", "lf", "ll"],
                     cfgl=["nc.d.1.0.b", "c.d.1.0.b", "c.0.0.0.b", "dfa.d.1.0.b", "dfa.d.0.0.a"])
     return {"reqs": reqs, "certs": certs, "first": "bykind", "gen": g, "modes": "1"}
 
@@ -205,14 +214,14 @@ def gen_C11(tier, seed):
         for hb in range(256):
             reqs.append(fmt_req("find", {"mk": "std", "pats": hx(bytes([pb])), "hay": hx(bytes([hb])),
                                          "fold": 1, "cfgs": cfgs(["nc.d.1.0.b", "c.d.1.0.b", "dfa.d.1.0.u"])}))
-    reqs += _find_like(g, 200 if q else 2000, ["std", "lf", "ll"], ["find", "iter"], cf, fold=True,
+    reqs += _find_like(g, qn(q, 200, 2000), ["std", "lf", "ll"], ["find", "iter"], cf, fold=True,
                        pat_kinds=kinds)
-    reqs += _find_like(g, 60 if q else 600, ["std"], ["ovl", "ovliter"], cf, fold=True, pat_kinds=kinds)
-    reqs += _find_like(g, 60 if q else 600, ["std", "lf", "ll"], ["find", "iter"], CFG_ANCH, anch=True,
+    reqs += _find_like(g, qn(q, 60, 600), ["std"], ["ovl", "ovliter"], cf, fold=True, pat_kinds=kinds)
+    reqs += _find_like(g, qn(q, 60, 600), ["std", "lf", "ll"], ["find", "iter"], CFG_ANCH, anch=True,
                        fold=True, pat_kinds=kinds)
     fixed = [[b"aB", b"Ab"], [b"A"], [b"a@", b"`A"], [b"[z", b"{Z"], [bytes([0xC1]), bytes([0xE1])], [b"Az", b"aZ", b"AZ"]]
     certs = _fixed_certs(["std", "lf", "ll"], fixed, fold=True)
-    certs += _certs(g, 30 if q else 300, ["std", "lf", "ll"], fold=1.0, pat_kinds=kinds)
+    certs += _certs(g, qn(q, 30, 300), ["std", "lf", "ll"], fold=1.0, pat_kinds=kinds)
     return {"reqs": reqs, "certs": certs, "first": True, "gen": g}
 
 
@@ -220,12 +229,12 @@ def gen_C14(tier, seed):
     g = Gen(seed)
     q = tier == "quick"
     cf = CFG_LOW + CFG_TOP + CFG_PRE
-    reqs = _find_like(g, 200 if q else 2000, ["std", "lf", "ll"], ["ismatch"], cf)
-    reqs += _find_like(g, 100 if q else 1000, ["std", "lf", "ll"], ["ismatch"], CFG_ANCH, anch=True)
-    reqs += _find_like(g, 200 if q else 2000, ["lf", "ll", "std"], ["find"], cf, earliest=True)
-    reqs += _find_like(g, 100 if q else 1000, ["lf", "ll"], ["find"], CFG_ANCH, anch=True, earliest=True)
+    reqs = _find_like(g, qn(q, 200, 2000), ["std", "lf", "ll"], ["ismatch"], cf)
+    reqs += _find_like(g, qn(q, 100, 1000), ["std", "lf", "ll"], ["ismatch"], CFG_ANCH, anch=True)
+    reqs += _find_like(g, qn(q, 200, 2000), ["lf", "ll", "std"], ["find"], cf, earliest=True)
+    reqs += _find_like(g, qn(q, 100, 1000), ["lf", "ll"], ["find"], CFG_ANCH, anch=True, earliest=True)
     reqs += _enum_small(["lf", "ll"], ["ismatch"], ["nc.d.1.0.b", "dfa.d.1.0.u"], maxp=2, maxplen=2,
-                        maxhay=3 if q else 4)
+                        maxhay=qn(q, 3, 4))
     # the same searches without earliest, to compare ends (C14: never overshoot)
     return {"reqs": reqs, "certs": [], "first": True, "gen": g, "earliest_pairs": True}
 
@@ -237,9 +246,9 @@ def gen_C16(tier, seed):
     allc = ["nc.d.1.0.b", "nc.0.1.1.b", "c.d.1.0.b", "c.0.0.1.b", "c.2.1.0.b", "c.9.0.0.b",
             "dfa.d.1.0.b", "dfa.d.0.1.b", "dfa.d.1.0.u", "dfa.d.0.0.a", "dfa.d.1.1.u"]
     certs = _fixed_certs(["std", "lf", "ll"], CORPUS_LISTS, cfgl=allc)
-    certs += _certs(g, 40 if q else 400, ["std", "lf", "ll"], fold=0.2, pat_kinds=kinds, cfgl=allc)
+    certs += _certs(g, qn(q, 40, 400), ["std", "lf", "ll"], fold=0.2, pat_kinds=kinds, cfgl=allc)
     reqs = []
-    for _ in range(150 if q else 1500):
+    for _ in range(qn(q, 150, 1500)):
         pats = g.pats()
         mk = g.rng.choice(["std", "lf", "ll"])
         hay = g.hay(pats, 12)
@@ -289,7 +298,7 @@ def _stream_reqs(g, tier, op, faults=False):
         return fmt_req(op, kv)
 
     # complete enumeration of read schedules on short streams
-    maxlen = 5 if q else 8
+    maxlen = qn(q, 5, 8)
     streams = enum_words(b"ab", maxlen, empty=True)
     for pats in STREAM_PATS[: 6 if q else len(STREAM_PATS)]:
         for data in streams:
@@ -309,7 +318,7 @@ def _stream_reqs(g, tier, op, faults=False):
                 reqs.append(mk(pats, data, sched, spare, extra,
                                cf=["nc.d.1.0.b", "c.0.0.0.b", "dfa.d.1.0.u", "auto.d.1.0.u"]))
     # random schedules on longer streams
-    for _ in range(150 if q else 2000):
+    for _ in range(qn(q, 150, 2000)):
         pats = g.pats(empty=False, kinds=["tiny", "tiny3", "nest", "akb", "suffix_chain"])
         pats = [p for p in pats if p] or [b"ab"]
         data = g.hay(pats, g.rng.choice([10, 30, 80, 200]))
@@ -327,7 +336,7 @@ def _stream_reqs(g, tier, op, faults=False):
                 extra = {"wlimit": g.rng.randint(0, len(data) + 3)}
         reqs.append(mk(pats, data, sched, spare, extra))
     # production buffer size: match straddling the 64 KiB boundary at every alignment
-    for k in range(0, 4 if q else 12):
+    for k in range(0, qn(q, 4, 12)):
         pats = [b"abc", b"bcd"]
         data = bytearray(b"x" * (65536 + 20))
         pos = 65536 - 3 + k % 6
@@ -367,7 +376,7 @@ def gen_C12(tier, seed):
     q = tier == "quick"
     cf = ["nc.d.1.0.b", "c.d.1.0.b", "dfa.d.1.0.u", "tnc.d.1.0.u", "tdfa.d.1.0.u", "auto.d.1.1.u", "auto.d.1.0.b"]
     reqs = []
-    for _ in range(300 if q else 3000):
+    for _ in range(qn(q, 300, 3000)):
         mk = g.rng.choice(["std", "lf", "ll"])
         variant = g.rng.choice(["bytes", "withbytes", "str", "withstr"])
         if variant in ("str", "withstr"):
@@ -455,7 +464,7 @@ def gen_C05(tier, seed):
     cf = ["nc.d.1.1.b", "nc.d.1.0.b", "c.d.1.1.b", "dfa.d.1.1.u", "dfa.d.1.1.b", "dfa.d.1.0.u", "tnc.d.1.1.u",
           "tc.d.1.1.b", "tdfa.d.1.1.u", "auto.d.1.1.u", "auto.d.1.1.b", "auto.d.1.0.u"]
     reqs = []
-    for _ in range(300 if q else 4000):
+    for _ in range(qn(q, 300, 4000)):
         pats = pre_pats(g)
         mk = g.rng.choice(["std", "lf", "ll", "lf", "ll"])
         fold = g.rng.random() < 0.25
@@ -474,7 +483,7 @@ def gen_C05(tier, seed):
             reqs.append(fmt_req(op, kv))
     # the prefilters themselves: variant chosen + candidate for a span, against the L3 model
     pcf = ["nc.d.1.1.b", "c.d.1.1.b", "dfa.d.1.1.u"]
-    for _ in range(300 if q else 4000):
+    for _ in range(qn(q, 300, 4000)):
         pats = pre_pats(g)
         mk = g.rng.choice(["std", "lf", "ll"])
         fold = g.rng.random() < 0.3
@@ -508,7 +517,7 @@ def gen_C10(tier, seed):
     q = tier == "quick"
     cf = ["nc.d.1.0.b", "c.0.0.0.b", "dfa.d.1.0.b", "nc.d.1.1.b", "dfa.d.1.1.b", "tc.d.1.1.b", "auto.d.1.1.b", "tdfa.d.1.0.b"]
     reqs, triples = [], []
-    for _ in range(250 if q else 3000):
+    for _ in range(qn(q, 250, 3000)):
         if g.rng.random() < 0.4:
             pats = pre_pats(g)
             hay = pre_hay(g, pats)
@@ -628,7 +637,7 @@ def gen_C06(tier, seed):
     g = Gen(seed)
     q = tier == "quick"
     reqs = []
-    for _ in range(400 if q else 6000):
+    for _ in range(qn(q, 400, 6000)):
         pats = packed_pats(g)
         mk = g.rng.choice(["lf", "ll"])
         nolim = 1 if (len(pats) > 64 or g.rng.random() < 0.2) else 0
@@ -649,7 +658,7 @@ def gen_C06(tier, seed):
     # width, final overlapped window, carry lanes), for 1..4-byte fingerprints, all variants
     sets = [[b"abc", b"bcd"], [b"abcd", b"bcde"]] + ([] if q else [[b"ab", b"cd"], [b"ab", b"b"], [b"abcde", b"abc"]])
     for pats in sets:
-        for n in range(0, 72 if q else 104):
+        for n in range(0, qn(q, 72, 104)):
             for pos in range(0, max(1, n - len(pats[0]) + 1)):
                 hay = bytearray(b"x" * n)
                 hay[pos:pos + len(pats[0])] = pats[0][: max(0, n - pos)]
@@ -679,7 +688,7 @@ def gen_C20(tier, seed):
                     kv["fold"] = 1
                 reqs.append(fmt_req("meta", kv))
                 reqs.append(fmt_req("selfcheck", kv))
-    for _ in range(60 if q else 800):
+    for _ in range(qn(q, 60, 800)):
         pats = g.pats(kinds=["tiny", "tiny3", "nest", "akb", "suffix_chain", "fanout", "casey", "random_bytes"])
         kv = {"mk": g.rng.choice(["std", "lf", "ll"]), "pats": hxlist(pats), "cfgs": cfgs(allc)}
         if g.rng.random() < 0.3:
@@ -728,7 +737,7 @@ def gen_C19(tier, seed):
             return pre_pats(g)
         return g.tiny()
 
-    for _ in range(300 if q else 4000):
+    for _ in range(qn(q, 300, 4000)):
         pats = families()
         mk = g.rng.choice(["std", "lf", "ll"])
         fold = g.rng.random() < 0.2
@@ -754,7 +763,7 @@ def gen_C19(tier, seed):
             reqs.append(fmt_req("cost", kv))
     allc = ["nc.d.1.0.b", "nc.0.1.0.b", "c.d.1.0.b", "c.0.0.0.b", "c.2.1.0.b", "c.9.0.0.b", "dfa.d.1.0.b", "dfa.d.0.0.u"]
     certs = _fixed_certs(["std", "lf", "ll"], CORPUS_LISTS + [[b"a" * 8 + b"b"], [b"aaab", b"aab", b"ab", b"b"]], cfgl=allc)
-    certs += _certs(g, 40 if q else 500, ["std", "lf", "ll"], fold=0.25,
+    certs += _certs(g, qn(q, 40, 500), ["std", "lf", "ll"], fold=0.25,
                     pat_kinds=["tiny", "tiny3", "nest", "akb", "suffix_chain", "casey", "fanout_small"], cfgl=allc)
     return {"reqs": reqs, "certs": certs, "first": "bykind", "gen": g, "needs_consts": ["cost"], "needs_cpu": True,
             "failsmode": True, "modes": "0", "l1c": True}
@@ -815,7 +824,7 @@ def custom_C15(run, chk):
     variants = ";".join(PACKED_VARIANTS)
     acf = cfgs(["nc.d.1.1.b", "c.d.1.1.b", "dfa.d.1.1.u", "auto.d.1.1.u", "nc.d.1.0.b"])
     for n in lens:
-        for _ in range(2 if q else 5):
+        for _ in range(qn(q, 2, 5)):
             pats = packed_pats(g) if g.rng.random() < 0.6 else pre_pats(g)
             r = g.rng.random()
             if r < 0.4:
@@ -955,12 +964,12 @@ def custom_C17(run, chk):
         run.violation({"kind": "source audit: thread-safety bound removed", "where": bmsg}, "no-failing-input-found")
     cf = ["nc.d.1.1.b", "c.d.1.1.b", "dfa.d.1.1.u", "tnc.d.1.1.u", "tc.d.1.0.u", "tdfa.d.1.1.u", "auto.d.1.1.u", "auto.d.1.1.b"]
     reqs = []
-    for _ in range(25 if q else 300):
+    for _ in range(qn(q, 25, 300)):
         pats = pre_pats(g) if g.rng.random() < 0.6 else g.pats()
         mk = g.rng.choice(["std", "lf", "ll"])
         hays = [pre_hay(g, pats) if g.rng.random() < 0.5 else g.hay(pats, 20) for _ in range(g.rng.randint(2, 5))]
         kv = {"mk": mk, "pats": hxlist(pats), "hays": "|".join(hx(h) for h in hays), "threads": 8,
-              "reps": 10 if q else 40, "seed": g.rng.randint(1, 10 ** 6), "cfgs": cfgs(cf)}
+              "reps": qn(q, 10, 40), "seed": g.rng.randint(1, 10 ** 6), "cfgs": cfgs(cf)}
         reqs.append(fmt_req("threads", kv))
     impl, model, mism = vlib.diff(reqs, "C17")
     run.cov.update({"evaluations": len(impl), "requests": len(reqs),
